@@ -1188,6 +1188,49 @@ def shapes(max_len):
             yield "".join(t)
 
 
+def wellformed_shapes(max_len):
+    """all well-formed expression shapes up to max_len tokens, generated from the reference grammar (factor := sign
+    factor | n | ( expr ); term := factor (*|/ factor)*; expr := term ((+|-)? term)*) and filtered by RefParser"""
+    L = max_len
+    E = [set() for _ in range(L + 1)]
+    T = [set() for _ in range(L + 1)]
+    F = [set() for _ in range(L + 1)]
+    for k in range(1, L + 1):
+        if k == 1:
+            F[k].add("n")
+        if k >= 2:
+            for f in F[k - 1]:
+                F[k].add("+" + f)
+                F[k].add("-" + f)
+        if k >= 3:
+            for e in E[k - 2]:
+                F[k].add("(" + e + ")")
+        T[k] |= F[k]
+        for i in range(1, k - 1):
+            for t in T[i]:
+                for f in F[k - 1 - i]:
+                    T[k].add(t + "*" + f)
+                    T[k].add(t + "/" + f)
+        E[k] |= T[k]
+        for i in range(1, k - 1):
+            for e in E[i]:
+                for t in T[k - 1 - i]:
+                    E[k].add(e + "+" + t)
+                    E[k].add(e + "-" + t)
+        for i in range(1, k):
+            for e in E[i]:
+                for t in T[k - i]:
+                    if t[0] in "n(":
+                        E[k].add(e + t)
+    out = []
+    for k in range(1, L + 1):
+        for sh in sorted(E[k]):
+            xs = [z3.Real("x%d" % i) for i in range(sh.count("n"))]
+            if RefParser.value(sh, xs) is not None:
+                out.append(sh)
+    return out
+
+
 def shape_code(shape):
     return [(len(shape), "u8")] + [(ALPHABET.index(c), "u8") for c in shape]
 
@@ -1249,11 +1292,21 @@ def check_shape(shape):
     return res
 
 
-def expression_spec(ctx, max_len, finding_filter=None):
+def expression_spec(ctx, max_len, finding_filter=None, wellformed_to=None, sample_to=None, sample_n=0):
     import multiprocessing as mp
     from engine_m import mir, to_f64, f64_bytes
     mir()
     todo = list(shapes(max_len))
+    if wellformed_to:
+        have = set(todo)
+        todo += [sh for sh in wellformed_shapes(wellformed_to) if sh not in have]
+    if sample_to:
+        # a VERIF_SEED-dependent sample of longer well-formed shapes (quick tier; the thorough tier enumerates them all)
+        import random
+        import common
+        rnd = random.Random(1000 + common.seed())
+        longer = [sh for sh in wellformed_shapes(sample_to) if len(sh) > (wellformed_to or max_len)]
+        todo += rnd.sample(longer, min(sample_n, len(longer)))
     with mp.Pool(min(16, mp.cpu_count())) as pool:
         results = pool.map(check_shape, todo, chunksize=32)
     ctx.part.functions += ["tokinizer::Tokinizer::missing_token_adder", "syntax::SyntaxParser::parse", "syntax::binary::parse_binary", "syntax::unary::UnaryParser::parse",
@@ -1280,15 +1333,15 @@ def report_shapes(ctx, results, keep):
             ctx.failures.append(("tokens %s: %s" % (" ".join(r["shape"]), r["detail"]), {"shape": r["shape"], "numbers": r["values"]}, ("m_replay_expression", enc)))
 
 
-@spec("C02", "m_expression_shapes_4", "every token list of length <= 4 over {number, + - * / ( )} through the REAL glue (missing_token_adder), parser ladder and interpreter, translated from MIR: each well-formed expression (precedence, left associativity, parentheses, sign prefixes, juxtaposition = '+', x/0 = 0) evaluates to the value given by the usual rules for ALL real operand values; shapes enumerated exhaustively, operand values symbolic (z3)", tiers=("quick",))
+@spec("C02", "m_expression_shapes_6", "every well-formed expression of <= 6 tokens over {number, + - * / ( )} (973 shapes, generated from the grammar), every token list of <= 4 tokens, and a VERIF_SEED-dependent sample of 320 well-formed expressions of 7..8 tokens, through the REAL glue (missing_token_adder), parser ladder and interpreter, translated from MIR: the value is the one given by precedence, left associativity, parentheses, sign prefixes (repeated, before parentheses), juxtaposition = '+' and x/0 = 0, for ALL real operand values; operand values symbolic (z3)", tiers=("quick",))
 def _(ctx):
-    res = expression_spec(ctx, 4)
+    res = expression_spec(ctx, 4, wellformed_to=6, sample_to=8, sample_n=320)
     report_shapes(ctx, res, lambda r: r["wf"])
 
 
-@spec("C02", "m_expression_shapes_6", "same for every token list of length <= 6 (137 256 shapes)", tiers=("thorough",))
+@spec("C02", "m_expression_shapes_8", "same for EVERY well-formed expression of <= 8 tokens (16 124 shapes) plus every token list of <= 5 tokens", tiers=("thorough",))
 def _(ctx):
-    res = expression_spec(ctx, 6)
+    res = expression_spec(ctx, 5, wellformed_to=8)
     report_shapes(ctx, res, lambda r: r["wf"])
 
 
@@ -1424,13 +1477,14 @@ def _(ctx):
         k = z3.Function("convert.k", z3.IntSort(), z3.StringSort(), z3.RealSort())(sid, myname)
         has = z3.Function("convert.has", z3.IntSort(), z3.StringSort(), z3.BoolSort())(sid, myname)
         conv = y * k
+        rpu = ("m_replay_unit_calc", [(OPS.index(op), "u8"), (x, "f64"), (y, "f64")])
         for o in outs:
             if o.kind == "panic":
-                ctx.reachable(ex, o.path, "DynamicTypeItem %s can panic: %s" % (op, o.msg))
+                ctx.reachable(ex, o.path, "DynamicTypeItem %s can panic: %s" % (op, o.msg), rpu)
                 continue
             it = some_item(o)
             if it == "None":
-                ctx.claim(ex, o.path, z3.Not(has), "unit arithmetic gives up although the right operand is convertible")
+                ctx.claim(ex, o.path, z3.Not(has), "unit arithmetic gives up although the right operand is convertible", rpu)
                 continue
             if it is None:
                 raise Unsupported("calculate returned %r" % (o.value,))
@@ -1438,14 +1492,14 @@ def _(ctx):
                 if it.kind != "NumberItem":
                     ctx.failures.append(("quantity / quantity yields a %s" % it.kind, {}, None))
                     continue
-                ctx.claim(ex, o.path, z3.And(has, it.f[0].t == z3.If(conv == 0, 0, x / conv)), "quantity / quantity is not the ratio after converting the right operand")
+                ctx.claim(ex, o.path, z3.And(has, it.f[0].t == z3.If(conv == 0, 0, x / conv)), "quantity / quantity is not the ratio after converting the right operand", rpu)
             else:
                 if it.kind != "DynamicTypeItem":
                     ctx.failures.append(("quantity %s quantity yields a %s" % (op, it.kind), {}, None))
                     continue
-                ctx.claim(ex, o.path, unit_id(ex, it.f[1]) == myid, "quantity %s quantity does not keep the left operand's unit" % op)
+                ctx.claim(ex, o.path, unit_id(ex, it.f[1]) == myid, "quantity %s quantity does not keep the left operand's unit" % op, rpu)
                 if op in ("Add", "Sub"):
-                    ctx.claim(ex, o.path, z3.And(has, it.f[0].t == real_op(op, x, conv)), "quantity %s quantity does not convert the right operand into the left unit" % op)
+                    ctx.claim(ex, o.path, z3.And(has, it.f[0].t == real_op(op, x, conv)), "quantity %s quantity does not convert the right operand into the left unit" % op, rpu)
         # quantity (op) number
         ex = new_exec("real")
         cfgv, item, other, me = calc_setup(ex, "DynamicTypeItem", ["NumberItem"])
@@ -1820,3 +1874,309 @@ def _(ctx):
 @spec("C03", "m_programs_4", "same for programs of <= 4 lines", tiers=("thorough",))
 def _(ctx):
     c03_spec(ctx, 4)
+
+
+
+# ============================================================================ C04 (calculator immutability) / C18 (API rule effect)
+def field_token(kind, name, extra=None):
+    """pattern token {KIND:name} as load_from_json / add_rule build it: TokenInfo whose type is TokenType::Field"""
+    if kind == "NUMBER":
+        ft = EnumV("FieldType", "Number", [StrV(name)])
+    elif kind == "TEXT":
+        ft = EnumV("FieldType", "Text", [StrV(name), EnumV("Option", "Some", [StrV(extra)]) if extra else EnumV("Option", "None", [])])
+    else:
+        raise Unsupported("field kind " + kind)
+    return tinfo(0, "{%s}" % name, EnumV("TokenType", "Field", [ft]))
+
+
+def rule_application(ctx, prop):
+    """one rule_tokinizer run with a single API rule '{NUMBER:n} foo' over the line tokens  a  foo  b"""
+    ex = new_exec("real", feas_ms=2000)
+    lr = LineRunner(ex)
+    tfields, cfields = lr.tfields, struct_fields("src/config.rs", "SmartCalcConfig")
+    tk = SymV(ex, "tokinizerR", "tokinizer::Tokinizer")
+    a, b, r = ex.fsym("a"), ex.fsym("b"), ex.fsym("r")
+    accept = z3.Bool("rule.accepts")
+    ex.inputs["rule.accepts"] = accept
+    rule = models.RuleObjV("seeded", accept, EnumV("TokenType", "Number", [r, EnumV("NumberType", "Decimal", [])]))
+    pattern = [field_token("NUMBER", "n"), tinfo(0, "foo", EnumV("TokenType", "Text", [StrV("foo")]))]
+    rules = VecV([EnumV("RuleType", "API", [VecV([VecV(pattern)]), RefV(rule)])])
+    line = [tinfo(0, "1", EnumV("TokenType", "Number", [a, EnumV("NumberType", "Decimal", [])])),
+            tinfo(2, "foo", EnumV("TokenType", "Text", [StrV("foo")])),
+            tinfo(6, "2", EnumV("TokenType", "Number", [b, EnumV("NumberType", "Decimal", [])]))]
+    st = {
+        (tk.path, tfields.index("token_infos")): VecV(line),
+        (tk.path, tfields.index("tokens")): VecV([]),
+        (tk.path, tfields.index("ui_tokens")): OpaqueV("ui_tokens"),
+        (tk.path, tfields.index("language")): StrV("en"),
+        (tk.path, tfields.index("config")): RefV(lr.cfgv),
+        (tk.path, tfields.index("session")): RefV(lr.sess),
+        (lr.cfgv.path, cfields.index("rule")): MapC({"en": rules}),
+    }
+    fn = find_fn("rule_tokinizer")
+    outs = list(ex.run(fn, [RefV(tk)], Path(stores=st)))
+    ctx.part.functions += ["tokinizer::rule_tokinizer::rule_tokinizer", "tokinizer::rule_tokinizer::find_match", "types::TokenInfo::eq", "types::TokenType::field_compare"]
+    ctx.paths += len(outs)
+    pat_ids = {t.path for t in pattern}
+    rp = ("k_replay_api_rule", [])
+    seen = {"accept": 0, "decline": 0}
+    for o in outs:
+        if o.kind == "panic":
+            ctx.reachable(ex, o.path, "rule_tokinizer can panic: " + o.msg, rp)
+            continue
+        touched = sorted({k[0] for k in o.path.stores if k[0] in pat_ids})
+        ctx.part.queries += 1
+        if touched:
+            ctx.failures.append(("applying / declining a rule writes into the calculator's own pattern tokens (evaluation changes the calculator)", {}, rp))
+            continue
+        infos = o.path.stores[(tk.path, tfields.index("token_infos"))].items
+        status = lambda t: (o.path.stores.get((t.path, 4), t.f[4])).variant
+        calls = [e for e in o.path.events if e[0] == "rule_call"]
+        acc = ex.feasible(o.path, accept)
+        if acc and not ex.feasible(o.path, z3.Not(accept)):
+            seen["accept"] += 1
+            ok = (len(infos) == 4 and status(infos[1]) == "Removed" and status(infos[2]) == "Removed" and status(infos[0]) == "Active" and status(infos[3]) == "Active")
+            new = infos[0]
+            tt = new.f[2].f[0] if ok else None
+            ok = ok and isinstance(tt, EnumV) and tt.variant == "Number" and tt.f[0] is r
+            fields = calls[0][2] if calls else None
+            ok = ok and isinstance(fields, MapC) and set(fields.d) == {"n"}
+            if not ok:
+                ctx.failures.append(("a matching rule does not replace exactly the matched span by the token it returns (fields bound by name)", {}, rp))
+        else:
+            seen["decline"] += 1
+            unchanged = len(infos) == 3 and all(status(t) == "Active" for t in infos)
+            if not unchanged:
+                ctx.failures.append(("a declining rule changes the line's tokens", {}, rp))
+    if not (seen["accept"] and seen["decline"]):
+        ctx.failures.append(("rule application: accept/decline paths missing (%s)" % seen, {}, None))
+
+
+@spec("C04", "m_rule_application_immutable", "rule_tokinizer with one API rule over a matching line (MIR, rule decision symbolic): neither applying nor declining the rule writes into the calculator's own pattern tokens (shared Rc<TokenInfo>), so evaluating text never changes the calculator")
+def _(ctx):
+    rule_application(ctx, "C04")
+
+
+@spec("C18", "m_api_rule_effect", "rule_tokinizer with one API rule '{NUMBER:n} foo' over the tokens  a foo b  (MIR, rule decision and values symbolic): a match calls the rule with its fields bound by name and replaces exactly the matched span by the returned token; a declining rule leaves the line as if the rule were absent; the pattern tokens are never modified")
+def _(ctx):
+    rule_application(ctx, "C18")
+
+
+
+# ============================================================================ C18: registration bookkeeping
+def c18_ops():
+    ops = []
+    for lang in ("en", "xx"):
+        for r in (0, 1, 2):
+            ops.append(("add_rule", lang, r))
+            ops.append(("delete_rule", lang, r))
+    ops.append(("add_type", "fam", None))
+    for idx in (1, 2):
+        ops.append(("add_item", "fam", idx))
+    return ops
+
+
+def check_registration(seq):
+    """worker: one sequence of registration calls on a calculator that knows language 'en' only; rule names are
+    symbolic strings (they may coincide), so the solver decides over all names"""
+    import time as _t
+    ex = new_exec("real", feas_ms=2000)
+    res = {"seq": seq, "status": "pass", "detail": "", "queries": 0, "paths": 0}
+    try:
+        fns = ex.fns
+        pick = lambda nm: [f for n, f in fns.items() if _re.search(r"smartcalc::<impl at src/smartcalc\.rs[^>]*>::%s$" % nm, n)][0]
+        from mirsmt.execmir import Inst
+        cfields = struct_fields("src/config.rs", "SmartCalcConfig")
+        cfgv = SymV(ex, "config", "config::SmartCalcConfig")
+        calc = StructV("SmartCalc", [cfgv])
+        names = [z3.String("rule%d.name" % i) for i in (0, 1, 2)]
+        rules = [models.RuleObjV(StrVName(names[i]), z3.BoolVal(False), None) for i in (0, 1, 2)]
+        st = {(cfgv.path, cfields.index("rule")): MapC({"en": VecV([])}), (cfgv.path, cfields.index("types")): MapC({})}
+        # reference model: per language list of rule indices (registration order); families: name -> set of indices
+        paths = [(Path(stores=st), {"en": []}, {})]
+        ops = c18_ops()
+        for step, oi in enumerate(seq):
+            op, a, b = ops[oi]
+            nxt = []
+            for path, ref_rules, ref_types in paths:
+                if op == "add_rule":
+                    outs = list(ex.run(pick("add_rule"), [RefV(calc), StrV(a), VecV([]), RefV(rules[b])], path))
+                    want_ret = a in ref_rules
+                    new_rules = {k: list(v) for k, v in ref_rules.items()}
+                    if want_ret:
+                        new_rules[a].append(b)
+                    exp = [(want_ret, new_rules, ref_types, None)]
+                elif op == "delete_rule":
+                    outs = list(ex.run(pick("delete_rule"), [RefV(calc), StrV(a), StrV(names[b])], path))
+                    # reference: removes the FIRST registered rule whose name equals names[b]; which one that is depends on
+                    # whether the two symbolic names coincide
+                    exp = []
+                    lst = ref_rules.get(a)
+                    if lst is None:
+                        exp.append((False, ref_rules, ref_types, None))
+                    else:
+                        # candidates in order; condition that the first match is at position i
+                        conds = []
+                        for i, r in enumerate(lst):
+                            eq_i = z3.BoolVal(True) if r == b else names[r] == names[b]
+                            before = [z3.Not(z3.BoolVal(True) if lst[j] == b else names[lst[j]] == names[b]) for j in range(i)]
+                            new_rules = {k: list(v) for k, v in ref_rules.items()}
+                            new_rules[a] = lst[:i] + lst[i + 1:]
+                            exp.append((True, new_rules, ref_types, z3.And(before + [eq_i])))
+                        none = z3.And([z3.Not(z3.BoolVal(True) if r == b else names[r] == names[b]) for r in lst]) if lst else z3.BoolVal(True)
+                        exp.append((False, ref_rules, ref_types, none))
+                elif op == "add_type":
+                    outs = list(ex.run(Inst(pick("add_dynamic_type"), ["&str"]), [RefV(calc), StrV(a)], path))
+                    want_ret = a not in ref_types
+                    new_types = {k: set(v) for k, v in ref_types.items()}
+                    if want_ret:
+                        new_types[a] = set()
+                    exp = [(want_ret, ref_rules, new_types, None)]
+                else:
+                    args = [RefV(calc), StrV(a), IntV(b, 64, False), StrV("{value} u"), VecV([]), StrV("{value}"), StrV("{value}"), VecV([StrV("u%d" % b)]),
+                            EnumV("Option", "None", []), EnumV("Option", "None", []), EnumV("Option", "None", [])]
+                    outs = list(ex.run(Inst(pick("add_dynamic_type_item"), ["&str"]), args, path))
+                    want_ret = a in ref_types and b not in ref_types[a]
+                    new_types = {k: set(v) for k, v in ref_types.items()}
+                    if want_ret:
+                        new_types[a].add(b)
+                    exp = [(want_ret, ref_rules, new_types, None)]
+                res["paths"] += len(outs)
+                for o in outs:
+                    s_ = z3.Solver()
+                    s_.set("timeout", 20000)
+                    for cc in ex.domain + ex.assumptions + list(o.path.pc):
+                        s_.add(cc)
+                    if o.kind == "panic":
+                        res["queries"] += 1
+                        if s_.check() == z3.sat:
+                            res.update(status="fail", detail="step %d %s panics: %s" % (step + 1, ops[oi], o.msg))
+                            return res
+                        continue
+                    # which expected case does this outcome belong to?
+                    matched = False
+                    for want_ret, nr, nt, cond in exp:
+                        s2 = z3.Solver()
+                        s2.set("timeout", 20000)
+                        for cc in ex.domain + ex.assumptions + list(o.path.pc):
+                            s2.add(cc)
+                        if cond is not None:
+                            s2.add(cond)
+                        res["queries"] += 1
+                        if s2.check() != z3.sat:
+                            continue
+                        matched = True
+                        got_ret = z3.is_true(z3.simplify(o.value)) if z3.is_expr(o.value) else bool(o.value)
+                        state_rules = {k: [rules.index(models.deref(x.f[1])) for x in v.items] for k, v in o.path.stores[(cfgv.path, cfields.index("rule"))].d.items()}
+                        tm = o.path.stores[(cfgv.path, cfields.index("types"))].d
+                        state_types = {k: set(v.d) for k, v in tm.items()}
+                        if got_ret != want_ret or state_rules != nr or state_types != nt:
+                            mdl = s2.model()
+                            res["name_eq"] = [bool(z3.is_true(mdl.eval(names[i] == names[j], model_completion=True))) for i, j in ((0, 1), (0, 2), (1, 2))]
+                            res.update(status="fail", detail="step %d of %s: returned %s with rules %s families %s; a fresh calculator with the surviving registrations has returned %s, rules %s, families %s" % (
+                                step + 1, [ops[i] for i in seq], got_ret, state_rules, state_types, want_ret, nr, nt))
+                            return res
+                        p2 = o.path if cond is None else o.path.add(cond)
+                        nxt.append((p2, nr, nt))
+                    if not matched:
+                        res.update(status="fail", detail="step %d %s: outcome matches no case of the reference model" % (step + 1, ops[oi]))
+                        return res
+            paths = nxt
+            if not paths:
+                res.update(status="fail", detail="no feasible outcome at step %d" % (step + 1))
+                return res
+    except Unsupported as e:
+        res.update(status="unsupported", detail=str(e)[:300])
+    return res
+
+
+class StrVName(str):
+    """marker so that RuleObjV.name can be a symbolic string"""
+    def __new__(cls, term):
+        o = str.__new__(cls, str(term))
+        o.term_ = term
+        return o
+
+
+def c18_spec(ctx, max_len):
+    import itertools
+    import multiprocessing as mp
+    from engine_m import mir
+    mir()
+    n = len(c18_ops())
+    todo = [t for L in range(1, max_len + 1) for t in itertools.product(range(n), repeat=L)]
+    with mp.Pool(min(16, mp.cpu_count())) as pool:
+        results = pool.map(check_registration, todo, chunksize=16)
+    ctx.part.functions += ["smartcalc::SmartCalc::add_rule", "smartcalc::SmartCalc::delete_rule", "smartcalc::SmartCalc::add_dynamic_type", "smartcalc::SmartCalc::add_dynamic_type_item"]
+    ctx.paths += sum(r["paths"] for r in results)
+    ctx.part.queries += sum(r["queries"] for r in results)
+    ctx.part.sample = {"sequences": len(results), "operations": [str(o) for o in c18_ops()]}
+    uns = [r for r in results if r["status"] == "unsupported"]
+    if uns:
+        raise Unsupported("%d sequences refused, e.g. %s: %s" % (len(uns), uns[0]["seq"], uns[0]["detail"]))
+    for r in results:
+        if r["status"] == "fail":
+            eqs = r.get("name_eq") or [False, False, False]
+            ctx.failures.append((r["detail"], {"sequence": [str(c18_ops()[i]) for i in r["seq"]], "names_equal(01,02,12)": eqs},
+                                 ("k_replay_registration", [[len(r["seq"])]] + [[i] for i in r["seq"]] + [[1 if e else 0] for e in eqs])))
+
+
+@spec("C18", "m_registration_4", "every sequence of <= 4 calls from {add_rule(lang in {en, unknown}, r0|r1|r2), delete_rule(lang, name of r0|r1|r2), add_dynamic_type(fam), add_dynamic_type_item(fam, 1|2)} on a calculator (MIR; the three rule names are symbolic strings that may coincide): return values and the resulting rule order / family tables equal a reference list model - add fails only for the unknown language, delete removes the FIRST rule of that name and fails only if none, duplicates are rejected without change", tiers=("quick",))
+def _(ctx):
+    c18_spec(ctx, 4)
+
+
+@spec("C18", "m_registration_5", "same for sequences of <= 5 calls", tiers=("thorough",))
+def _(ctx):
+    c18_spec(ctx, 5)
+
+
+@spec("C01", "m_duration_kernels_total", "duration_parse, combine_durations, DurationItem::calculate, DateTimeItem::calculate and from_unixtime (MIR -> SMT) for EVERY count / duration / timestamp, however large: no panic path is satisfiable (a value chrono cannot represent is declined as a value, never a panic)")
+def _(ctx):
+    # duration_parse, any count
+    ex, fields, toks, args, cfgv, tkv = setup_rule("duration_parse", "real")
+    x = fval(toks["duration"], "Number")
+    word = toks["type"].payload("Text").field(0, "alloc::string::String").term()
+    tag = assume_unit_word(ex, "duration_rules::duration_parse", cfgv, tkv, word, ["Day", "Week", "Month", "Year", "Second", "Minute", "Hour"])
+    outs, _ = run_fn(ex, "duration_rules::duration_parse", args)
+    ctx.part.functions += ["duration_rules::duration_parse", "duration_rules::combine_durations", "compiler::duration::calculate", "compiler::date_time::calculate", "date_time_rules::from_unixtime"]
+    ctx.paths += len(outs)
+    rp = ("m_replay_duration_parse_any", [(tag, "u8"), (x.t, "f64")])
+    for o in outs:
+        if o.kind == "panic":
+            ctx.reachable(ex, o.path, "duration_parse panics for a huge count: " + o.msg, rp)
+        else:
+            ctx.part.queries += 1
+    # combine_durations, any durations
+    ex, fields, toks, args, cfgv, tkv = setup_rule("combine_durations", "real")
+    fields.keys_order = [str(i) for i in range(1, 7)]
+    outs, _ = run_fn(ex, "duration_rules::combine_durations", args)
+    ctx.paths += len(outs)
+    for o in outs:
+        if o.kind == "panic":
+            ctx.reachable(ex, o.path, "combine_durations panics: " + o.msg, ("m_replay_huge_line", [(0, "u8")]))
+        else:
+            ctx.part.queries += 1
+    # DurationItem +- DurationItem, DateTimeItem +- DurationItem, any values
+    for kind, what in (("DurationItem", "duration"), ("DateTimeItem", "date-time")):
+        for op in ("Add", "Sub"):
+            ex = new_exec("real")
+            cfgv2, item, other, me = calc_setup(ex, kind, ["DurationItem"])
+            if kind == "DateTimeItem":
+                me.field(0, "chrono::NaiveDateTime")
+            outs = run_calc(ex, kind, item, cfgv2, other, op)
+            ctx.paths += len(outs)
+            for o in outs:
+                if o.kind == "panic":
+                    ctx.reachable(ex, o.path, "%s %s duration panics: %s" % (what, op, o.msg), ("m_replay_huge_line", [(1 if kind == "DurationItem" else 2, "u8")]))
+                else:
+                    ctx.part.queries += 1
+    # from_unixtime, any number
+    ex, fields, toks, args, cfgv, tkv = setup_rule("from_unixtime", "real")
+    outs, _ = run_fn(ex, "date_time_rules::from_unixtime", args)
+    ctx.paths += len(outs)
+    for o in outs:
+        if o.kind == "panic":
+            ctx.reachable(ex, o.path, "from_unixtime panics for a huge timestamp: " + o.msg, ("m_replay_huge_line", [(3, "u8")]))
+        else:
+            ctx.part.queries += 1
